@@ -1,4 +1,5 @@
 import FmtModel.Arith
+import FmtModel.Esc
 import FmtModel.Drv.Grp
 open Py Wire Engine
 
@@ -12,8 +13,17 @@ def readIntS (s : Str) : Int :=
 def showValNat (o : R Obj) : String :=
   showR (fun n => toString n) (do let x ← o; Serial.value x)
 
+def hexBytes : Str → List Nat
+  | a :: b :: r => (hexVal a * 16 + hexVal b) :: hexBytes r
+  | _ => []
+
 def ariDispatch (op : String) (a : List Str) : Option String :=
   match op, a with
+  | "re_escape", [t] => some (esc (Esc.reEscape t))
+  | "unescape", [t] => some (esc (Esc.unescape t))
+  | "escape_fmt_group", [t] => some (match Esc.escapeFmtGroup t with | some r => esc r | none => "err:re.error")
+  | "utf8_decode", [h] => some (showR esc (Esc.decode (hexBytes h)))
+  | "utf8_encode", [t] => some (String.intercalate " " ((Esc.encode t).map toString))
   | "arith.serial.int", [v1, f1, o, n] =>
     let A := Engine.parse Serial.cls v1 (readOpt f1) false
     let k := readIntS n
